@@ -113,6 +113,11 @@ theorem rxView_step_nonrx (e : Ep) (ev : Ev) (hne : ∀ c, ev ≠ .rx c) : (step
       · split
         · rw [view_doClose]; rfl
         · rw [view_sendSessTerm]; rfl
+  | modulate raw =>
+    simp only []
+    split
+    · rfl
+    · split <;> rfl
 
 theorem frameInv_step (e : Ep) (ev : Ev) (hi : FrameInv e) : FrameInv (step e ev).1 := by
   obtain ⟨h1, h2, h3⟩ := hi
